@@ -80,7 +80,9 @@ class History:
                        'reconnection_delay': 1, 'randomization_factor': 0})
         h = self.h
         self.nss = POOL[:rng.choice([1, 2, 3])]
-        self.style = rng.choice(['func', 'class'])
+        # 'star': every handler is registered under the catch-all namespace
+        # only (connect() without a namespace list then asks for '/')
+        self.style = rng.choice(['func', 'func', 'class', 'class', 'star'])
         self.co = rng.random() < 0.6
         self.events = []
         self.accepted = {}
@@ -99,7 +101,15 @@ class History:
         self.up = False          # a connect() succeeded and no end since
         self.root_refused = False
         rec = self.rec
-        if self.style == 'func':
+        if self.style == 'star':
+            h.on('connect', lambda ns: rec('connect', ns), '*', self.co)
+            h.on('connect_error', lambda ns, *a: rec('connect_error', ns,
+                                                     list(a)), '*', self.co)
+            h.on('disconnect', lambda ns, reason: rec('disconnect', ns,
+                                                      reason), '*', self.co)
+            h.on('ping', lambda ns, *a: rec('event', ns, list(a)), '*',
+                 self.co)
+        elif self.style == 'func':
             for ns in self.nss:
                 h.on('connect', (lambda ns: lambda: rec('connect', ns))(ns),
                      ns, self.co)
@@ -219,18 +229,30 @@ class History:
         rng, ctx, h = self.rng, self.ctx, self.h
         explicit = rng.random() < 0.7
         req = sorted(rng.sample(self.nss, rng.randint(1, len(self.nss)))) \
-            if explicit else sorted(self.nss)
+            if explicit else (['/'] if self.style == 'star'
+                              else sorted(self.nss))
+        if not explicit and self.style == 'star':
+            ctx.count('default_namespace_with_catch_all_handlers_only')
         wait = rng.random() < 0.7
         auth = rng.choice(AUTHS)
         akind = rng.choice(['value', 'callable'] + (
             ['coroutine'] if h.is_async else []))
+        # a callable is asked again for every connection (also the automatic
+        # ones): each call yields a fresh value
+        self.auth_calls = []
+
+        def fresh():
+            v = {'call': len(self.auth_calls) + 1, 'auth': auth}
+            self.auth_calls.append(v)
+            return v
         if akind == 'callable':
-            authv = lambda: auth  # noqa: E731
+            authv = fresh
         elif akind == 'coroutine':
             async def authv():
-                return auth
+                return fresh()
         else:
             authv = auth
+        self.auth_kind = akind
         plan = rng.choice(['all', 'all', 'all', 'partial', 'none', 'silent'])
         self.decisions = {}
         for ns in req:
@@ -284,9 +306,17 @@ class History:
             return self.fail('CONNECT frames for %r, requested %r' % (
                 [f[1] for f in self.connect_frames], req), {'op': op})
         for _, ns, data in self.connect_frames:
-            if not R.deep_eq(data, auth or {}):
+            want_auth = (auth or {}) if akind == 'value' else (
+                self.auth_calls[-1] if self.auth_calls else None)
+            if akind != 'value' and any(
+                    R.deep_eq(data, v) for v in self.auth_calls):
+                # (one call per namespace or one per connection: both carry
+                # a value obtained for this connection)
+                continue
+            if not R.deep_eq(data, want_auth):
                 return self.fail('CONNECT for %r carries %r, auth is %r' % (
-                    ns, data, auth), {'op': op})
+                    ns, data, want_auth), {'op': op})
+        self.auth_seen = len(self.auth_calls)
         evs = self.events[ev0:]
         all_ok = all(d == 'accept' for d in self.decisions.values())
         if wait:
@@ -573,6 +603,20 @@ class History:
                         if e[0] == 'connect')
             req = sorted(f[1] for f in self.connect_frames
                          if f[0] == len(h.attempts))
+            if getattr(self, 'auth_kind', 'value') != 'value':
+                # the reconnection asked the auth callable again: its
+                # CONNECTs carry a value obtained after the loss
+                ctx.count('reconnections_with_callable_auth')
+                fresh_vals = self.auth_calls[getattr(self, 'auth_seen', 0):]
+                for f in self.connect_frames:
+                    if f[0] == len(h.attempts) and not any(
+                            R.deep_eq(f[2], v) for v in fresh_vals):
+                        return self.fail(
+                            'the automatic reconnection sent CONNECT %r '
+                            'carrying %r: not a value the auth callable '
+                            'returned for this connection (%r)' % (
+                                f[1], f[2], fresh_vals), {'op': op})
+                self.auth_seen = len(self.auth_calls)
             if cn != sorted(self.accepted):
                 return self.fail('after reconnection connect handlers ran '
                                  'for %r, accepted %r' % (
@@ -877,6 +921,8 @@ def run(ctx):
     ctx.require('bad_namespace_checked', 30)
     ctx.require('disconnect_accounting', 50)
     ctx.require('post_reconnect_probes', 10)
+    ctx.require('default_namespace_with_catch_all_handlers_only', 5)
+    ctx.require('reconnections_with_callable_auth', 5)
     ctx.require('partial_binary_then_end', 5)
     ctx.require('connects_with_eager_read_loop', 20)
     ctx.require('slow_connect_handler_scenarios', 4)
